@@ -171,12 +171,12 @@ func (vc *VC) declLocal(st *State, n *ast.Ident, v Val) {
 	if o == nil {
 		return
 	}
-	v = vc.convert(st, v, o.Type())
+	v = vc.convert(st, v, vc.subst(o.Type()))
 	if ov, ok := o.(*types.Var); ok && vc.needsBox(ov) {
 		vc.initBoxed(st, ov, v)
 		return
 	}
-	st.locals[o] = vc.define(o.Name(), vc.sortOf(o.Type()), v.S)
+	st.locals[o] = vc.define(o.Name(), vc.sortOf(vc.subst(o.Type())), v.S)
 }
 
 func (vc *VC) evalMulti(st *State, e ast.Expr, n int) []Val {
@@ -511,7 +511,7 @@ func (vc *VC) execReturn(st *State, x *ast.ReturnStmt) {
 		// named results
 		for i := 0; i < n; i++ {
 			o := sig.Results().At(i)
-			vals = append(vals, vc.mk(st.locals[o], o.Type()))
+			vals = append(vals, vc.mk(st.locals[o], vc.subst(o.Type())))
 		}
 	} else if len(x.Results) == 1 && n > 1 {
 		vals = vc.evalMulti(st, x.Results[0], n)
@@ -522,7 +522,7 @@ func (vc *VC) execReturn(st *State, x *ast.ReturnStmt) {
 	}
 	for i := range vals {
 		if i < n {
-			vals[i] = vc.convert(st, vals[i], sig.Results().At(i).Type())
+			vals[i] = vc.convert(st, vals[i], vc.subst(sig.Results().At(i).Type()))
 			vals[i].S = vc.define("ret", vals[i].Sort, vals[i].S)
 		}
 	}
